@@ -2,7 +2,50 @@
 // assumed: A-OS (sendmsg accepts a PREFIX of the bytes offered, attaches the descriptors iff at least .. the call succeeds; on error nothing
 //          is transferred; recvmsg stores a PREFIX-length run of the next stream bytes at the addresses of the iovecs in order)
 pub type RawFd = i32;
-pub enum Error { SocketRetry(i32), SocketBroken(i32), SocketError(i32), PartialMessage, Other }
+// R10: an io::Error built with from_raw_os_error(e) is modelled by e
+pub enum Error { SocketRetry(i32), SocketBroken(i32), SocketError(i32), SocketConnect(i32), PartialMessage, Other }
+pub struct ErrnoError { pub e: i32 }
+impl ErrnoError { pub fn errno(&self) -> (r: i32) ensures r == self.e { self.e } }
+// the classification the property names (retry vs broken), written from its text: EAGAIN/EWOULDBLOCK 11, EINTR 4, ENOBUFS 105,
+// ENOMEM 12 are temporary; ECONNRESET 104, EPIPE 32 mean the connection is gone; EACCES 13 is a connect error; the errno is kept
+pub open spec fn classify(e: i32) -> Error {
+    if e == 11 || e == 4 || e == 105 || e == 12 { Error::SocketRetry(e) } else if e == 104 || e == 32 { Error::SocketBroken(e) }
+    else if e == 13 { Error::SocketConnect(e) } else { Error::SocketError(e) }
+}
+impl vstd::std_specs::convert::FromSpecImpl<ErrnoError> for Error {
+    open spec fn obeys_from_spec() -> bool { true }
+    open spec fn from_spec(e: ErrnoError) -> Self { classify(e.e) }
+}
+impl core::convert::From<ErrnoError> for Error {
+    fn from(e: ErrnoError) -> (r: Error) { error_from_errno(e) }   // the extracted body of the real `From` impl (a trait impl method cannot carry ensures)
+}
+pub type ErrnoResult<T> = core::result::Result<T, ErrnoError>;
+// R19/R20 targets in recv_data
+// assumed: A-ALLOC vec![0u8; len] is a live allocation of len bytes (base + len does not wrap); base_of is the address of element 0
+pub uninterp spec fn base_of(v: &Vec<u8>) -> usize;
+#[verifier::external_body]
+pub fn vec_zeroed(len: usize) -> (r: Vec<u8>) ensures r@.len() == len, base_of(&r) + len <= usize::MAX { vec![0u8; len] }
+// `rbuf[from..].as_mut_ptr() as *mut c_void` (REQUIRES is the range check of the slice index: a failing one is a panic)
+#[verifier::external_body]
+pub fn tail_addr(v: &mut Vec<u8>, from: usize) -> (r: usize)
+    requires from <= old(v)@.len()
+    ensures r == base_of(old(v)) + from, final(v)@.len() == old(v)@.len(), base_of(final(v)) == base_of(old(v))
+{ unimplemented!() }
+impl Endpoint {
+    // assumed: A-OS  self.sock.recv_with_fds(iovs, fds) = one recvmsg (same contract as recv_into_iovec, no descriptor buffer)
+    #[verifier::external_body]
+    pub fn sock_recv_with_fds(&mut self, iovs: &mut [iovec; 1], fds: &mut [RawFd; 0]) -> (r: ErrnoResult<(usize, usize)>)
+        requires iov_ok(old(iovs)@[0])
+        ensures final(iovs)@ == old(iovs)@,
+            match r {
+                Ok((n, k)) => n <= old(iovs)@[0].iov_len && final(self).pos@ == old(self).pos@ + n
+                    && final(self).stored@ =~= old(self).stored@ + deliver(addrs(old(iovs)@[0]).subrange(0, n as int), old(self).pos@)
+                    && final(self).wire@ == old(self).wire@ && final(self).calls@ == old(self).calls@
+                    && final(self).eof@ == (old(self).eof@ || (n == 0 && old(iovs)@[0].iov_len > 0)),
+                Err(_) => final(self).pos@ == old(self).pos@ && final(self).stored@ == old(self).stored@ && final(self).wire@ == old(self).wire@ && final(self).calls@ == old(self).calls@ && final(self).eof@ == old(self).eof@,
+            }
+    { unimplemented!() }
+}
 pub type Result<T> = core::result::Result<T, Error>;
 pub struct File { pub id: Ghost<int> }
 #[allow(non_camel_case_types)]
@@ -70,7 +113,8 @@ pub struct RecvRec { pub at: int, pub n: int, pub files: Option<Seq<int>> }
 pub open spec fn fids(f: Option<Vec<File>>) -> Option<Seq<int>> { match f { Some(v) => Some(Seq::new(v@.len(), |i: int| v@[i].id@)), None => None } }
 // ghost state of the socket: bytes handed to sendmsg so far and the record of each sendmsg that went through;
 // stream position, where each received stream byte was stored, and the record of each recvmsg that went through
-pub struct Endpoint { pub wire: Ghost<Seq<u8>>, pub calls: Ghost<Seq<SendRec>>, pub pos: Ghost<int>, pub stored: Ghost<Seq<(int, int)>>, pub rcalls: Ghost<Seq<RecvRec>> }
+// `eof`: a receive with room for at least one byte returned 0 (end of stream); `stalled`: a send of at least one byte was accepted as 0
+pub struct Endpoint { pub wire: Ghost<Seq<u8>>, pub calls: Ghost<Seq<SendRec>>, pub pos: Ghost<int>, pub stored: Ghost<Seq<(int, int)>>, pub rcalls: Ghost<Seq<RecvRec>>, pub eof: Ghost<bool>, pub stalled: Ghost<bool> }
 
 impl Endpoint {
     // assumed: A-OS recvmsg stores the next n (<= capacity) stream bytes at the iovecs' addresses in order; nothing on error
@@ -81,8 +125,9 @@ impl Endpoint {
             match r {
                 Ok((n, f)) => n <= flat(aviews(old(iovs)@)).len() && final(self).pos@ == old(self).pos@ + n
                     && final(self).stored@ =~= old(self).stored@ + deliver(flat(aviews(old(iovs)@)).subrange(0, n as int), old(self).pos@)
-                    && final(self).rcalls@ == old(self).rcalls@.push(RecvRec { at: old(self).pos@, n: n as int, files: fids(f) }),
-                Err(_) => final(self).pos@ == old(self).pos@ && final(self).stored@ == old(self).stored@ && final(self).rcalls@ == old(self).rcalls@,
+                    && final(self).rcalls@ == old(self).rcalls@.push(RecvRec { at: old(self).pos@, n: n as int, files: fids(f) })
+                    && final(self).eof@ == (old(self).eof@ || (n == 0 && flat(aviews(old(iovs)@)).len() > 0)),
+                Err(_) => final(self).pos@ == old(self).pos@ && final(self).stored@ == old(self).stored@ && final(self).rcalls@ == old(self).rcalls@ && final(self).eof@ == old(self).eof@,
             }
     { unimplemented!() }
 }
@@ -98,8 +143,9 @@ impl Endpoint {
         ensures
             match r {
                 Ok(n) => n <= flat(views(iovs@)).len() && final(self).wire@ == old(self).wire@ + flat(views(iovs@)).subrange(0, n as int)
-                    && final(self).calls@ == old(self).calls@.push(SendRec { at: old(self).wire@.len() as int, with_fds: match fds { Some(f) => Some(f@), None => None }, n: n as int }),
-                Err(_) => final(self).wire@ == old(self).wire@ && final(self).calls@ == old(self).calls@,
+                    && final(self).calls@ == old(self).calls@.push(SendRec { at: old(self).wire@.len() as int, with_fds: match fds { Some(f) => Some(f@), None => None }, n: n as int })
+                    && final(self).stalled@ == (old(self).stalled@ || (n == 0 && flat(views(iovs@)).len() > 0)),
+                Err(_) => final(self).wire@ == old(self).wire@ && final(self).calls@ == old(self).calls@ && final(self).stalled@ == old(self).stalled@,
             }
     { unimplemented!() }
 }
